@@ -339,6 +339,30 @@ def r4(ctx):
     hs = [h for h in walk_own(f.node) if isinstance(h, ast.ExceptHandler) and h.type is not None and "ValueError" in norm(h.type)]
     okk = bool(hs) and all(h.body and isinstance(h.body[-1], ast.Return) for h in hs)
     ctx.check("C13.R4", okk, key(f, "lost-race-returns"), site(f), "when the reaper already removed the connection (ValueError) the request is still enqueued on a closed connection", "return on ValueError")
+    # evaluated on a kept-alive connection (initialized, queued in _keep): whatever on_client_socket_readable does with it --
+    # hand it to a thread, or release it on the spot -- the connection has left _keep first; a connection that is closed while
+    # still queued is released a second time by the reaper (nr_conns goes negative, the capacity gate opens too far)
+    from ..absint import Ref, HEAP
+    CONN = f.params[1]
+    for label, in_keep in (("kept-alive connection", True), ("connection the reaper already took", False)):
+        c0, other = Ref("conn"), Ref("other")
+        ex = Explorer(f, tracked=["self._keep", "self.nr_conns"])
+        env = {HEAP: {("conn", "initialized"): True, ("conn", "sock"): UNKNOWN}, ex.key_of(ast.Name(id=CONN, ctx=ast.Load())): c0,
+               "self._keep": ((other, c0) if in_keep else (other,)), "self.nr_conns": 5}
+        outs = ex.run(g.entry, env, watch={n.id: "enqueued" for n in enq})
+        for o in outs:
+            if o.kind not in ("return", "raise"):
+                continue
+            keep = o.env.get("self._keep")
+            nrc = o.env.get("self.nr_conns")
+            still = isinstance(keep, tuple) and c0 in keep
+            acted = "enqueued" in o.events or nrc != 5
+            ctx.check("C13.R4", not (acted and still) and keep is not UNKNOWN, key(f, "leaves-keep-first|%s" % label), site(f),
+                      "on a %s, on_client_socket_readable %s while the connection is still queued in _keep: the keep-alive reaper will close / release it a second time" % (
+                          label, "hands it to a thread" if "enqueued" in o.events else "releases it (nr_conns %s -> %s)" % (5, nrc)), "removed from _keep before anything is done with it")
+            if not in_keep:
+                ctx.check("C13.R4", "enqueued" not in o.events and nrc == 5, key(f, "lost-race-untouched"), site(f),
+                          "a connection the reaper has already taken out of _keep (and closed) is still %s" % ("handed to a thread" if "enqueued" in o.events else "released again"), "left alone")
     fe = ctx.fn(repo.func(TW + ".enqueue_req"))
     sub = [c for c in method_calls(fe, "submit") if c.args and repo.resolve(fe.module, fe, c.args[0]) == "self.handle"]
     wf = calls_to(repo, fe, TW + "._wrap_future") + [c for c in method_calls(fe, "add_done_callback") if c.args and repo.resolve(fe.module, fe, c.args[0]) == "self.finish_request"]
